@@ -651,8 +651,8 @@ func (se *shapeEnvT) runShape(c *shapeCase) {
 			panic("inconsistent: no error and no bundle")
 		}
 	case "plugin-metadata":
-		m := &pluginfw.GetMetadataResponse{}
-		if json.Unmarshal(doc, m) != nil {
+		var m *pluginfw.GetMetadataResponse // "null": the (nil, nil) answer of an in-process plugin
+		if json.Unmarshal(doc, &m) != nil {
 			return
 		}
 		se.withPlugin(&MockPlugin{Meta: m, Resp: &pluginfw.VerifySignatureResponse{
@@ -680,10 +680,10 @@ func (se *shapeEnvT) runShape(c *shapeCase) {
 			checkPair(o, err, true)
 		}
 	case "plugin-reply.verify-signature":
-		// decoded as plugin.CLIPlugin does: into a value, so that "null" leaves the zero response
-		// (an in-process plugin answering (nil, nil) breaks the plugin contract: C12_contracts_needed)
-		r := &pluginfw.VerifySignatureResponse{}
-		if json.Unmarshal(doc, r) != nil {
+		// decoded into a pointer: "null" gives the (nil, nil) answer of an in-process plugin
+		// (fix 686cc56: an error, not a panic); every other text decodes as the CLI plugin decodes it
+		var r *pluginfw.VerifySignatureResponse
+		if json.Unmarshal(doc, &r) != nil {
 			return
 		}
 		m := okMeta
